@@ -271,8 +271,8 @@ def gen_module(rng, max_depth=3, want=None):
 
     state = {"funcs_seen_module": 0}
 
-    def emit_assign(prefix, indent, scope_names, in_class):
-        nm = uniq(MOD_NAMES)
+    def emit_assign(prefix, indent, scope_names, in_class, name=None):
+        nm = name or uniq(MOD_NAMES)
         scope_names.add(nm)
         pad = "    " * indent
         if rng.random() < 0.6:
@@ -333,6 +333,12 @@ def gen_module(rng, max_depth=3, want=None):
     for _ in range(n_top):
         r = rng.random()
         if r < 0.3:
+            if rng.random() < 0.3:
+                # optional-dependency idiom: the name that is assigned next is first tried as an import
+                peek = uniq(MOD_NAMES)
+                lines += ["try:", "    import {}".format(peek), "except ImportError:", "    pass"]
+                emit_assign([], 0, top_names, False, name=peek)
+                continue
             emit_assign([], 0, top_names, False)
         elif r < 0.6:
             emit_function([], 0, False)
